@@ -80,8 +80,21 @@ func runC15(c *Ctx) {
 	add("loop", "Node.run", false)
 	add("provider", "channelProvider.run", false)
 	add("chrun", "Channel.run", false)
-	add("reader", "Channel.run$1", false)
-	add("writer", "Channel.run$2", false)
+	// the two per-channel workers: the functions launched by `go` from Channel.run that call runReader / runWriter
+	if chRun := c.FnOpt("root", "Channel.run"); chRun != nil {
+		for _, g := range goStmts(chRun) {
+			tf, _ := goTarget(g)
+			if tf == nil || tf.Blocks == nil {
+				continue
+			}
+			if len(callsNamed(tf, "(gomavlib.Channel).runReader")) > 0 || fnLocalName(tf) == "Channel.runReader" {
+				roots = append(roots, root{"reader", tf, false})
+			}
+			if len(callsNamed(tf, "(gomavlib.Channel).runWriter")) > 0 || fnLocalName(tf) == "Channel.runWriter" {
+				roots = append(roots, root{"writer", tf, false})
+			}
+		}
+	}
 	add("heartbeat", "nodeHeartbeat.run", false)
 	add("streamreq", "nodeStreamRequest.run", false)
 	// exported Node API: arbitrary user goroutines
@@ -383,9 +396,10 @@ func ruleRawPassthrough(c *Ctx, rule string) {
 		return
 	}
 	var guard *ssa.If
+	var notRaw *ssa.BasicBlock
 	for _, iff := range ifsIn(w) {
-		if strings.HasSuffix(ex(iff.Cond), ".(*message.MessageRaw)?#1") {
-			guard = iff
+		if _, fb, _, hit := succWhenFunc(iff, func(cs string) bool { return strings.HasSuffix(cs, ".(*message.MessageRaw)?#1") && !strings.HasPrefix(cs, "!") }); hit {
+			guard, notRaw = iff, fb
 		}
 	}
 	bad := ""
@@ -401,7 +415,7 @@ func ruleRawPassthrough(c *Ctx, rule string) {
 			case *ssa.Call:
 				mut = isEncodeCall(calleeName(&x.Call))
 			}
-			if mut && !edgeMustPass(w, edge{guard.Block(), guard.Block().Succs[1]}, in.Block()) {
+			if mut && !edgeMustPass(w, edge{guard.Block(), notRaw}, in.Block()) {
 				bad = "frame mutated at " + c.Pos(in.Pos()) + " even when it already carries a raw message"
 			}
 		}
